@@ -513,7 +513,14 @@ func checkReleaseDiscipline(prog *core.Program, r1, r2 *core.RuleRun, fn *ssa.Fu
 			"the receive buffer is used after it was returned to the pool ("+bad+"): the receive loop may already be reading another datagram into it")
 	}
 	// R12.2: per iteration at most one release
-	res := core.CountQuery{Fn: fn, StartBlock: loop.Header, Stop: core.IterationStop(loop), Event: func(i ssa.Instruction) int {
+	// an iteration ends at the loop header; a path that leaves the loop is followed to the function's return, so that a
+	// release on the way out (after `break`) is counted together with the one at the top of that last iteration
+	res := core.CountQuery{Fn: fn, StartBlock: loop.Header, Stop: func(from, to *ssa.BasicBlock) (bool, string) {
+		if to == loop.Header {
+			return true, "latch"
+		}
+		return false, ""
+	}, Event: func(i ssa.Instruction) int {
 		if putSet[i] {
 			return 1
 		}
